@@ -62,10 +62,11 @@ CfgRec(dd, ns, ig, m, lg, ex) ==
     [dd |-> dd, ns |-> ns, ignoreDims |-> ig, mult |-> m, lg |-> lg, extra |-> ex]
 
 \* entry-dimension configurations (EntryDimensions): a sequence of dimension sets
-EDKinds == {"ed_d2", "ed_two", "ed_empty"}
+EDKinds == {"ed_d2", "ed_two", "ed_empty", "ed_unit"}
 EntryDimsOf(c) == CASE c = "ed_d2"    -> << <<"d2">> >>
                     [] c = "ed_two"   -> << <<>>, <<"d2">> >>
                     [] c = "ed_empty" -> <<>>
+                    [] c = "ed_unit"  -> << <<>> >>       \* one empty set: leaves the dimension sets as configured
 
 \* observation tokens
 \*   U unsigned, F finite float, NaN, PInf, NInf,
